@@ -289,3 +289,12 @@ package keeper
 //@ loop 0: invariant forall j :: 0 <= j && j < #i ==> (data.Tunnels[j].IsActive ==> has(Store_tunnel, types.ActiveTunnelIDStoreKey(data.Tunnels[j].ID)))
 //@ loop 1: invariant forall j :: 0 <= j && j < len(data.Tunnels) ==> has(Store_tunnel, types.TunnelStoreKey(data.Tunnels[j].ID))
 //@ loop 1: invariant forall j :: 0 <= j && j < len(data.Tunnels) ==> (data.Tunnels[j].IsActive ==> has(Store_tunnel, types.ActiveTunnelIDStoreKey(data.Tunnels[j].ID)))
+
+// ---- frame of the store invariants: each record family is written only through these functions ------------------------
+// (the invariants above are proved writer by writer - "a lock has its index entry", "a record is filed under its own id";
+// a new function that Sets or Deletes such keys directly is outside that argument: ground obligation `writers/...`)
+//@ writers ActiveTunnelIDStoreKey: Keeper.DeleteActiveTunnelID, Keeper.SetActiveTunnelID
+//@ writers DepositStoreKey: Keeper.DeleteDeposit, Keeper.SetDeposit
+//@ writers LatestPricesStoreKey: Keeper.SetLatestPrices
+//@ writers TunnelPacketStoreKey: Keeper.SetPacket
+//@ writers TunnelStoreKey: Keeper.SetTunnel
